@@ -6,11 +6,11 @@ Core Lean only.  C01's evaluation model (`Model/SubsetEval`: object graph with i
 objects by reference, one `@memoize` table per decorated `to_mask`, keys `(table, state, data, view,
 call form)`) extended with **mutation**:
 
-* `setAttr a c`   — an attribute setter on an elementary selection (`st.lo/hi/att = …`,
+* `setAttr a k c` — an attribute setter on an elementary selection (`st.lo/hi/att = …`,
                     `st.left/right/operator = …`, `st.indices = …`, `st.categories = …`, `st.roi = …`,
                     `st.pairs = …`, `st.slices = …`, `st.mask = …`): the *state object* `a` now refers to a
                     new parameter value; states that shared the old parameter object are unaffected;
-* `editParam a c` — an in-place edit of the parameter *object* of `a` (`roi.move_to`, `roi.rotate_to`,
+* `editParam a k c` — an in-place edit of the parameter *object* of `a` (`roi.move_to`, `roi.rotate_to`,
                     `roi.vx[:] = …`, `pairs[0] = …`, `categories[k].add(…)`, `mask[i] = …`; also what
                     `state.move_to` does to a `RoiSubsetState`): every state sharing the object sees it;
 * `dataMut m d`   — `Data.update_components`, `Data.update_values_from_data` (same / new shape),
